@@ -85,6 +85,14 @@ def run(ctx):
         lg, f = rnd.choice(sens)
         n = rnd.choice([4, 5, 6, 7]) if lg == 'CTL' else rnd.choice([3, 4, 5])
         base.append({'logic': lg, 'K': gen.rand_kripke(rnd, n, density=rnd.choice([0.2, 0.3, 0.4])), 'f': f})
+    # shaped structures (a p-cycle, a p-tail leaving it, a non-p sink; >= 6 states): the answer of the SCC-based operators
+    # must not depend on where the depth-first search happens to start
+    for _ in range(80 if q else 1200):
+        k, t = rnd.choice([3, 3, 4]), rnd.choice([2, 2, 3])
+        n = k + t + 1
+        R = {(i, (i + 1) % k) for i in range(k)} | {(rnd.randrange(k), k)} | {(k + i, k + i + 1) for i in range(t - 1)} | {(k + t - 1, k + t), (k + t, k + t)}
+        base.append({'logic': rnd.choice(['CTL', 'CTL', 'CTLS']), 'K': {'n': n, 'R': [list(e) for e in sorted(R)], 'L': [['p']] * (k + t) + [['q']]},
+                     'f': rnd.choice([('E', ('G', P)), ('A', ('F', ('not', P))), ('A', ('U', P, Q)), ('E', ('G', ('or', P, Q)))])})
     # (1) hash seeds: fresh interpreters, hash-sensitive namings
     hs_cases = []
     for i, b in enumerate(base):
